@@ -47,6 +47,15 @@ def gen(t, orders):
             a('w_perm2_' + o, '%s& r, const %s& v' % (V, V), '%s e(v, %s, %s::XYZLayout); r = e.toXYZVector();' % (Eu, P_, Eu), o=o, k='perm')
             a('w_perm3_' + o, '%s& r, const %s& v' % (V, V), '%s e(v, %s, %s::IJKLayout); %s w = e.toXYZVector(); %s f(%s); f.setXYZVector(w); r = f;' % (Eu, P_, Eu, V, Eu, P_), o=o, k='perm')
     a('w_seteuler', '%s& m, const %s& a' % (M4, V), 'm.setEulerAngles(a);', k='seteuler')
+    # extractEulerXYZ / extractEulerZYX / extractEuler against their builders, rows scaled by positive factors s
+    scale44 = 'for (int i = 0; i < 3; ++i) for (int j = 0; j < 3; ++j) m[i][j] *= s[i];'
+    for o in ('XYZ', 'ZYX'):
+        a('w_xe_' + o, '%s& n, const %s& a, const %s& s' % (M3, V, V), '%s m = %s(a, %s::%s).toMatrix44(); %s %s r; extractEuler%s(m, r); n = %s(r, %s::%s).toMatrix33();' % (M4, Eu, Eu, o, scale44, V, o, Eu, Eu, o), o=o, k='xe')
+        a('w_xb_' + o, '%s& n, const %s& a' % (M3, V), 'n = %s(a, %s::%s).toMatrix33();' % (Eu, Eu, o), o=o, k='xb')
+    M2 = 'Matrix22<%s>' % E
+    a('w_xe_33', '%s& n, const %s& a, const %s& s' % (M2, E, V), '%s m; m.setRotation(a); for (int i = 0; i < 2; ++i) for (int j = 0; j < 2; ++j) m[i][j] *= s[i]; %s r; extractEuler(m, r); n.setRotation(r);' % (M3, E), k='xe')
+    a('w_xe_22', '%s& n, const %s& a, const %s& s' % (M2, E, V), '%s m; m.setRotation(a); for (int i = 0; i < 2; ++i) for (int j = 0; j < 2; ++j) m[i][j] *= s[i]; %s r; extractEuler(m, r); n.setRotation(r);' % (M2, E), k='xe')
+    a('w_xb_22', '%s& n, const %s& a' % (M2, E), 'n.setRotation(a);', k='xb')
     a('w_angleMod', 'float& r, const %s& x' % E, 'r = %s::angleMod(x);' % Eu, k='mod')
     a('w_simpleXYZ', '%s& x, const %s& tgt' % (V, V), '%s::simpleXYZRotation(x, tgt);' % Eu, k='simple')
     return tu
@@ -209,6 +218,59 @@ def _re_pair(job):
     except (P.NotPoly, PC.Undecided, vg.Unsupported, OverflowError) as e:
         return (oid, UNDECIDED, repr(e)[:300], where)
 
+def tan_half_ctx(ang, t, mid_from_half_pi):
+    """Ctx in which cos/sin of the listed angle nodes are rational in t_i = tan(angle_i/2); the middle angle (index 1) is
+    measured from pi/2 when mid_from_half_pi, and t_1 > 0 is the generic cell; atan2 compositions expanded"""
+    E, sz, lt = ELEM[t]
+    ctx = P.Ctx(); ctx.cancel = True
+    install_atan2_rules(ctx)
+    orig = ctx.call
+    tk = [ctx.key(T.inp('t#%d' % i, 0, sz, lt)) for i in range(len(ang))]
+    if len(ang) > 1: ctx.positive.add(tk[1])
+    def call(n):
+        if n.attr in ('cos', 'sin') and len(n.args) == 1:
+            for i in range(len(ang)):
+                if n.args[0] is ang[i]:
+                    tt = P.patom(tk[i]); one = P.pconst(1)
+                    den = P.padd(one, P.pmul(tt, tt)); c_ = P.psub(one, P.pmul(tt, tt)); s_ = P.pscale(tt, 2)
+                    if i == 1 and mid_from_half_pi: c_, s_ = s_, c_
+                    return (c_ if n.attr == 'cos' else s_, den)
+        return orig(n)
+    ctx.call = call
+    return ctx
+
+def check_xeuler(rep, R, t):
+    """R11.xe: extractEulerXYZ / extractEulerZYX / extractEuler invert their builders (Euler(r, order).toMatrix44(),
+    setRotation), also when the rows carry positive scale factors (they normalise the rows first)"""
+    E, sz, lt = ELEM[t]
+    for name, build_, nang, dim in (('w_xe_XYZ', 'w_xb_XYZ', 3, 3), ('w_xe_ZYX', 'w_xb_ZYX', 3, 3), ('w_xe_33', 'w_xb_22', 1, 2), ('w_xe_22', 'w_xb_22', 1, 2)):
+        oid = {'w_xe_XYZ': 'extractEulerXYZ', 'w_xe_ZYX': 'extractEulerZYX', 'w_xe_33': 'extractEuler(Matrix33)', 'w_xe_22': 'extractEuler(Matrix22)'}[name] + '<%s>' % E
+        S, SB = R.get(name), R.get(build_)
+        if S is None or SB is None:
+            rep.ob(oid, 'R11.xe', UNDECIDED, (R.err.get(name) or R.err.get(build_) or 'not analysed')[:300]); continue
+        where = fn_where(S.fn)
+        try:
+            n = dim * dim
+            o = [S.out('a0', i * sz, sz, lt) for i in range(n)]; b = [SB.out('a0', i * sz, sz, lt) for i in range(n)]
+            for _ in range(12):
+                pre = {}
+                for c in set(c_ for x in o for c_ in P.all_conds(x)):
+                    if c.op == 'fcmp' and c.attr == 'olt' and c.args[1].op == 'const' and 0 < T.const_value(c.args[1]) < Fraction(1, 10 ** 30): pre[c] = False       # lengthTiny path
+                    elif c.op == 'fcmp' and c.attr in ('oeq', 'une') and any(z.op == 'const' and T.const_value(z) == 0 for z in c.args): pre[c] = (c.attr == 'une')  # length != 0
+                if not pre: break
+                o = [T.resolve(x, pre) for x in o]
+            ang = [agg.slot_in('a1', i, t) for i in range(nang)] if nang == 3 else [agg.scalar_in('a1', t)]
+            ctx = tan_half_ctx(ang, t, nang == 3)
+            for i in range(3): ctx.positive.add(ctx.key(agg.slot_in('a2', i, t)))
+            bad = None
+            for i in range(n):
+                a_, b_ = ctx.rat(o[i]), ctx.rat(b[i])
+                if not ctx.requal(a_, b_):
+                    bad = 'entry [%d][%d] rebuilt from the extracted angle(s) is %s, the builder gives %s' % (i // dim, i % dim, P.show_rat(a_, ctx)[:140], P.show_rat(b_, ctx)[:140]); break
+            rep.ob(oid, 'R11.xe', VIOLATED if bad else HOLDS, bad or 'rebuilding from the extracted angles gives the builder\'s rotation, for every positive row scaling (generic cell)', where, nontrivial=True)
+        except (P.NotPoly, PC.Undecided, vg.Unsupported, OverflowError) as e:
+            rep.ob(oid, 'R11.xe', UNDECIDED, repr(e)[:300], where)
+
 def check_reorder(rep, R, RM, t, pairs):
     import multiprocessing
     _RE[t] = dict(t=t, R=R, RM=RM)
@@ -321,11 +383,12 @@ def main(rep, ws, tier):
         except (vg.Unsupported, P.NotPoly) as e:
             rep.ob('Euler(XYZ).toMatrix44 == Matrix44::setEulerAngles<%s>' % E, 'R11.xyz', UNDECIDED, str(e))
         check_anglemod(rep, R, t)
+        check_xeuler(rep, R, t)
     rep.floor('per-order obligations', sum(1 for o in rep.obs if o['rule'] in ('R11.order', 'R11.m', 'R11.x', 'R11.q')), 96 * len(types))
     rep.extra['orders_enumerated'] = len(ORDERS)
     rep.extra['exhaustive_over_orders'] = True
     rep.assumptions += ['exact real arithmetic; sin/cos atoms with sin^2+cos^2 = 1', 'R11.rt: generic cell with cos(middle angle) > 0 (repeated-axis orders: sin(middle angle) > 0)']
-    rep.undecided_clauses += ['extract at and near gimbal lock, and the alternate-solution cell (cos of the middle angle negative)', 'makeNear / nearestRotation "within pi" claims', 'extractEuler* helpers']
+    rep.undecided_clauses += ['extract at and near gimbal lock, and the alternate-solution cell (cos of the middle angle negative)', 'makeNear / nearestRotation "within pi" claims']
 
 def roundtrip(SM, SX, o, t, ang):
     """toMatrix33(extract(toMatrix33(a))) == toMatrix33(a) with atan2 rules, on the generic cell"""
